@@ -4,6 +4,7 @@ import (
 	"math"
 	"slices"
 	"strconv"
+	"strings"
 )
 
 // A Tree is a radix tree that represents a set of Web origins.
@@ -260,6 +261,12 @@ func (n *node) elems(dst *[]string, suf string) {
 	// hoist most bounds checks out of the (outer) loop.
 	for i, ports := range n.ports {
 		scheme := n.schemes[i]
+		suf := suf // deliberately shadowed: children must receive the raw suffix
+		if strings.IndexByte(suf, hostPortSep) >= 0 {
+			// Only IPv6 addresses contain colons; their enclosing brackets,
+			// which are not stored in the tree, must be restored.
+			suf = "[" + suf + "]"
+		}
 		for _, port := range ports {
 			var maybeWildcard string
 			if port < 0 {
